@@ -297,6 +297,7 @@ func (clnt *Clnt) send() {
 			return
 
 		case req := <-clnt.reqout:
+			verifPoint("clntsend.dequeued", clnt, 0, 0)
 			/* req stays valid while the lock is held and no error is set: when the
 			   connection fails, recv sets clnt.err under the lock before it tells
 			   the callers, and they recycle their requests (req.Tc becomes nil) */
